@@ -718,8 +718,11 @@ def lj_predicate_run(seed: int, n_steps: int, inversion: bool | None = None) -> 
     from topsearch.similarity.molecular_similarity import MolecularSimilarity
     np.random.seed(seed)
     pyrandom.seed(seed)
-    n = 6
-    base = np.array([[0, 0, 0], [1.1, 0, 0], [0, 1.1, 0], [0, 0, 1.1], [1.1, 1.1, 0], [1.1, 0, 1.1]], dtype=float)
+    if inversion is None:
+        inversion = seed % 2 == 1       # every other run: mirror images count as the same structure when compared
+    n = 6 if (seed % 3 == 0 and not inversion) else 7         # LJ7 has four minima: accepted steps are compared with stored minima they do not match
+    base = np.array([[0, 0, 0], [1.1, 0, 0], [0, 1.1, 0], [0, 0, 1.1], [1.1, 1.1, 0], [1.1, 0, 1.1], [0, 1.1, 1.1]],
+                    dtype=float)[:n]
     start = (base + 0.05 * np.random.rand(n, 3)).ravel()
     coords = AtomicCoordinates(["C"] * n, start.copy())
     entries, outs, metro = [], [], {}
@@ -737,11 +740,9 @@ def lj_predicate_run(seed: int, n_steps: int, inversion: bool | None = None) -> 
         outs.append((np.array(pos, dtype=float).copy(), float(e), int(d["warnflag"]), d["task"]))
         return pos, e, d
     ktn = KineticTransitionNetwork()
-    if inversion is None:
-        inversion = seed % 2 == 1       # every other run: mirror images count as the same structure when compared
     bh = bhmod.BasinHopping(ktn=ktn, potential=LennardJones(),
                             similarity=MolecularSimilarity(0.05, 1e-3, weighted=False, allow_inversion=inversion),
-                            step_taking=Rec(max_displacement=0.6, max_atoms=2))
+                            step_taking=Rec(max_displacement=0.6 if n == 6 else 0.9, max_atoms=2 if n == 6 else 3))
     real_metro = bh.metropolis
 
     def m(e1, e2, T):
@@ -752,7 +753,7 @@ def lj_predicate_run(seed: int, n_steps: int, inversion: bool | None = None) -> 
     import warnings
     with _Patched([(bhmod.lbfgs, "minimise", log_min)]), warnings.catch_warnings(), np.errstate(all="ignore"):
         warnings.simplefilter("ignore")
-        bh.run(coords, n_steps, 1e-5, 0.5)
+        bh.run(coords, n_steps, 1e-5, 0.5 if n == 6 else 2.0)
     cur, cur_e = outs[0][0], outs[0][1]
     for t, pos in enumerate(entries + [coords.position.copy()]):
         if not np.allclose(centred(pos), centred(cur), rtol=0, atol=1e-7):
@@ -875,12 +876,13 @@ def predicates(ctx: Ctx) -> None:
         ctx.stats.case({"stream": "predicate-trace", "surface": p["surface"], "seed": p["seed"]}, True)
         if r:
             ctx.fail(r[0], r[1], {"trace": p, **r[2]})
-    for i in range(ctx.scale(4, 12) * (2 if deep else 1)):
+    for i in range(ctx.scale(6, 16) * (2 if deep else 1)):
         seed = rng.randrange(10 ** 6)
-        r = lj_predicate_run(seed, ctx.scale(15, 30), inversion=(i % 2 == 0))
-        ctx.stats.case({"stream": "predicate-lj", "seed": seed, "allow_inversion": i % 2 == 0}, True)
+        inv = i % 3 != 2
+        r = lj_predicate_run(seed, ctx.scale(20, 30), inversion=inv)
+        ctx.stats.case({"stream": "predicate-lj", "seed": seed, "allow_inversion": inv}, True)
         if r:
-            ctx.fail(r[0], r[1], {"lj": {"seed": seed, "n_steps": ctx.scale(15, 30), "inversion": i % 2 == 0}, **r[2]})
+            ctx.fail(r[0], r[1], {"lj": {"seed": seed, "n_steps": ctx.scale(20, 30), "inversion": inv}, **r[2]})
             break
 
 
